@@ -355,6 +355,7 @@ func vfOff(b []byte) uint64        { return 0 }
 func vfPreempts() int              { return 0 }
 func vfThreadsBlocked() int        { return 0 }
 func vfThreadsLive() int           { return 0 }
+func vfQuiesce()                   { time.Sleep(2 * time.Millisecond) }
 
 const vfUnixToInternal = (1969*365 + 1969/4 - 1969/100 + 1969/400) * 86400
 
